@@ -220,3 +220,34 @@ PROPS["C18"] = {
              "non-trivial = the name contains a character that needs escaping or >= 2 separators; distinct by (class, name)"),
     "assumptions": ["'file:/x' is only a short form while the name does not itself start with '//'"],
 }
+
+PROPS["C14"] = {
+    "level": "fault_enumeration",
+    "technique": "fault injection driven by property-based generation: exhaustive enumeration of the failing allocation position k (fail-once and fail-from-k) per generated call, with a recording memory manager as oracle",
+    "level_text": ("For every generated (operation, input) - parse, resolve, create reference, normalise (any mask, borrowed/owned, also on resolved objects), make owner, dissect query, compose query - "
+                   "a dry run counts the n allocation requests; then every position k in 1..n is made to fail, once and from k on, plus random bit-mask plans, each on fresh objects. The call must "
+                   "return the out-of-memory code, the caller's ordinary cleanup must bring the recording manager to zero outstanding blocks with no double/foreign free, read-only operands must be "
+                   "bit-for-bit unchanged, ASan sees any touch of released memory; plans that do not bite must reproduce the fault-free result. The position dimension is exhaustive per call."),
+    "level_note": "Trusted: the recording manager, ASan. Only failure patterns are injected, not an allocator returning garbage. For n > 64 the first 32 positions plus 32 spread positions are used.",
+    "quick": {"cases": 6000},
+    "thorough": {"cases": 150000, "ceiling_s": 3000},
+    "rule": ("operations weighted normalise 21%, resolve 16%, create reference 16%, parse 11%, make owner 11%, dissect 11%, normalise-resolved 11%, compose 5%; inputs from G_uri / correlated pairs; "
+             "for each: all k in 1..n x {fail-once, fail-from} + one non-biting plan + up to 8 random masks, both character types. Non-trivial = the call makes >= 2 requests (so some k >= 2 hits after "
+             "something was built); distinct by case (each covers all its plans)"),
+    "assumptions": [],
+}
+
+PROPS["C15"] = {
+    "level": "exploration",
+    "technique": "stateful model-based property testing (rapidcheck): generated allocator call sequences against a map model with invariants after every step and backend fault plans",
+    "level_text": ("Sequences of up to 40 malloc/calloc/realloc/reallocarray/free calls (sizes 0..64, 4096, values at and near SIZE_MAX, wrapping element products, NULL pointers) run against the manager "
+                   "returned by uriCompleteMemoryManager over a malloc/free-only recording backend with a generated fault plan. After every step: every live block still holds its pattern over its full "
+                   "size (ASan bounds the backend block), blocks are disjoint, calloc memory is zero, realloc keeps the common prefix, overflow gives NULL+ENOMEM with the old block intact, realloc(p,0) "
+                   "frees, realloc(NULL,s) allocates, backend refusal surfaces as NULL with the old block intact, backend live set == caller live set, each backend block released once with its own pointer."),
+    "level_note": "Trusted: the model, ASan, my recording backend. Alignment is not asserted (not claimed by the statement).",
+    "quick": {"cases": 40000},
+    "thorough": {"cases": 1000000, "ceiling_s": 3000},
+    "rule": ("sequences of 1-40 ops: realloc 29%, malloc 24%, free 19%, calloc 14%, reallocarray 14%; pointer argument NULL in 1/8; fault mask on the first 40 backend requests in half of the sequences. "
+             "Non-trivial = >= 3 live blocks at some point and a grow after a shrink or a backend failure during growth; distinct by sequence"),
+    "assumptions": [],
+}
